@@ -33,6 +33,16 @@ Input classes beyond the random histories
                  row-wise mixed projective lifts of the same geometric data;
                  normalising queries (hyperboloid_coords, origin_to, distance,
                  ...) between the steps (seeded change C11-r3-3).
+  special-positions  exact dyadic data on the branch boundaries of the
+                 derived-data formulas (endpoint / vertex / base point at the
+                 origin, axis-parallel onto an axis, (p-q).q == 0, antipodal,
+                 exact boost onto the origin), gen/c11special.py; the ideal
+                 endpoints of polygon edges are also judged by the reference
+                 formula (seeded change C11-r4-1).
+  setitem-unit   item assignment with keys that reach into the unit axes
+                 (vertex axis of polygons; endpoint / row axis of segments and
+                 tangent vectors with keys that keep both rows) (seeded change
+                 C11-r4-2).
 """
 import copy
 import os
@@ -44,6 +54,7 @@ from .. import attach
 from ..ref import hyp as rh
 from ..ref import proj as rp
 from ..gen import projobjs as G
+from ..gen import c11special as SP
 from . import c04
 
 ID = "C11"
@@ -69,6 +80,14 @@ ASSUMPTIONS = [
     "the result is the same class with composite shape (-1,) + the last k - unit_rank "
     "composite axes, and its derived data has the same composite axes; flatten_to_aux() "
     "is only driven on classes whose derived data has the rank of the primary data",
+    "item assignment obj[key] = value follows numpy semantics on proj_data for every key "
+    "numpy accepts, provided type(obj)(value) can be built (a vertex-axis key of a "
+    "polygon needs a value of rank >= 2; an endpoint-axis key of a segment / tangent "
+    "vector must keep both rows); afterwards the derived data is that of the new "
+    "proj_data",
+    "a recomputation type(obj)(obj.proj_data).aux_data that is not finite although the "
+    "stored derived data is finite, for separated interior endpoints (segments) or an "
+    "interior base point (tangent vectors), is a stored-vs-recomputed mismatch",
     "a positive rescaling of a homogeneous representative (1e-9 .. 1e9 per row) does "
     "not change the object: the base point of a tangent vector, the endpoints of a "
     "segment and the vertices of a polygon are rescaled, never the tangent vector row",
@@ -196,6 +215,24 @@ def coherence(obj):
     if got.shape != want.shape:
         return "judge", np.inf, tol, "aux_data shape %r, recomputed %r" % (got.shape, want.shape)
     if not np.all(np.isfinite(want.astype(complex))):
+        # In-domain primary data (clearly interior, separated endpoints / an
+        # interior base point) has finite derived data.  If the stored one is
+        # finite and the recomputation is not, the two differ (seeded change
+        # C11-r4-1: an isometry carries correct ideal endpoints onto a segment
+        # ending exactly at the origin, where the recomputation divides 0 by 0).
+        # Both non-finite: equal as stored data; the aux-reference monitor judges.
+        if np.all(np.isfinite(got.astype(complex))) and pd.size and not np.iscomplexobj(pd):
+            with np.errstate(all="ignore"):
+                if isinstance(obj, H.Segment):
+                    indom = bool(np.all(rh.kind(pd, margin=1e-6) == "interior")) and \
+                        float(np.min(rp.klein_sep(pd[..., 0, :], pd[..., 1, :]))) >= 1e-5
+                elif isinstance(obj, H.TangentVector):
+                    indom = bool(np.all(rh.kind(pd[..., 0, :], margin=1e-6) == "interior"))
+                else:
+                    indom = False
+            if indom:
+                return "judge", np.inf, tol, ("the recomputation is not finite for in-domain "
+                                              "primary data, the stored derived data is")
         return "skip:degenerate primary data (recomputation not finite)", 0, 0, ""
     if isinstance(obj, H.TangentVector):
         with np.errstate(all="ignore"):
@@ -501,6 +538,7 @@ def setup(run):
 
 HKINDS = ["H.Polygon", "H.Segment", "H.TangentVector", "P.Polygon"]
 LIFTS = ["tiny", "huge", "mixed"]
+SPECIAL_KINDS = ["H.Segment", "H.Polygon", "H.TangentVector"]
 
 
 def lift_scales(rng, shape, lift):
@@ -535,6 +573,9 @@ def rescale_raw(rng, kind, raw, lift):
 def draw_value(rng, kind, n, shape, nv=None):
     """raw inputs of a further object entering the history (item value,
     stacking / combining partner), in the case's scale class."""
+    sp = _state.get("special")
+    if sp is not None and kind in SPECIAL_KINDS:
+        return SP.draw(rng, kind, n, shape, sp["class"], sp.get("boost"), nv=nv)
     raw = G.draw(rng, kind, n, shape, nv=nv)
     return rescale_raw(rng, kind, raw, _state.get("lift"))
 OPS = ["copy", "deepcopy", "class-copy", "apply", "apply-composite", "apply-pairwise",
@@ -542,7 +583,7 @@ OPS = ["copy", "deepcopy", "class-copy", "apply", "apply-composite", "apply-pair
        "combine", "astype32", "astype64", "query"]
 # further operations, driven by the targeted workloads (not in the random draw
 # of wl_history, whose case stream stays what it was)
-EXTRA_OPS = ["flatten-unit", "flatten-aux", "query-normalising"]
+EXTRA_OPS = ["flatten-unit", "flatten-aux", "query-normalising", "apply-given", "setitem-unit"]
 
 
 class Model:
@@ -645,9 +686,12 @@ def accessor_check(run, obj, model, opname, case):
                 sep = float(np.min(rp.klein_sep(model.prim, np.roll(model.prim, -1, axis=-2))))
                 if ga.shape == fa.shape and np.all(np.isfinite(fa)) and sep >= 1e-3:
                     dev = max(dev, float(np.max(rp.unordered_pair_dev(ga, fa))) * sep)
-            return acc.judge(dev, tol, "accessors/get_edges-stale/%s/after:%s" % (model.kind, opname),
-                             "after %s, %s.get_edges() is not what a fresh object built from the "
-                             "same proj_data returns" % (opname, model.kind), case)
+            ok = acc.judge(dev, tol, "accessors/get_edges-stale/%s/after:%s" % (model.kind, opname),
+                           "after %s, %s.get_edges() is not what a fresh object built from the "
+                           "same proj_data returns" % (opname, model.kind), case)
+            if ok and model.kind == "H.Polygon":
+                ok = edges_reference_check(run, got, model, opname, case)
+            return ok
         if model.kind == "H.Segment":
             sep = float(np.min(rp.klein_sep(model.prim[..., 0, :], model.prim[..., 1, :])))
             if sep < 1e-3:
@@ -675,6 +719,37 @@ def accessor_check(run, obj, model, opname, case):
                         "reading the derived data through its accessor raised %s: %s"
                         % (type(e).__name__, str(e)[:120]), case, tb=traceback.format_exc())
     return True
+
+
+def edges_reference_check(run, edges, model, opname, case):
+    """the segments returned by hyperbolic Polygon.get_edges() carry derived
+    data of their own (ideal endpoints), computed by the library on both sides
+    of the accessor comparison above: judged here by the library-free chord /
+    sphere formula (seeded change C11-r4-1: NaN ideal endpoints for an edge
+    ending at the origin, on the fresh object just as well)."""
+    ref = run.monitor("aux-reference")
+    ep = np.asarray(edges.proj_data)
+    ea = getattr(edges, "aux_data", None)
+    if ea is None or ep.dtype.kind not in "biuf" or not ep.size or not np.all(np.isfinite(ep)):
+        ref.skip("edges without numeric derived data")
+        return True
+    ep = ep.astype(float)
+    with np.errstate(all="ignore"):
+        interior = bool(np.all(rh.kind(ep, margin=1e-3) == "interior"))
+        sep = float(np.min(rp.klein_sep(ep[..., 0, :], ep[..., 1, :])))
+    if not interior or not sep >= 1e-3:
+        ref.skip("edge endpoints not clearly interior / nearly coincident")
+        return True
+    ea = np.asarray(ea)
+    if ea.dtype.kind not in "biuf":
+        d = np.inf
+    else:
+        with np.errstate(all="ignore"):
+            d = G.reference_aux_dev("H.Segment", ep, ea.astype(float))
+    rtol = (1e-3 if model.lowprec else 1e-6) / sep
+    return ref.judge(d, rtol, "aux-reference/H.Polygon.get_edges/after:%s" % opname,
+                     "after %s the ideal endpoints stored in Polygon.get_edges() are not the "
+                     "ideal points of the lines through the edges' endpoints" % opname, case)
 
 
 def relatives_check(run, relatives, step, opname):
@@ -729,7 +804,10 @@ def do_queries(rng, obj, kind):
             obj.point_along(0.3)
             obj.angle(obj.normalized())
             obj.isometry_to(obj)
-            obj.coords("klein")
+            if np.all(np.asarray(obj.proj_data)[..., 0] != 0):
+                # (affine coordinates of the vector row need a non-zero time
+                # coordinate: exact special-position vectors may lie in t = 0)
+                obj.coords("klein")
             H.Point(obj.point).hyperboloid_coords()
 
 
@@ -872,6 +950,74 @@ def apply_step(run, rng, op, obj, model, step):
         m2 = copy.copy(model)
         m2.prim = model.prim.reshape((-1,) + model.prim.shape[rank - k:])
         return new, m2, "ok"
+    if op == "apply-given":
+        # one given isometry (column convention), e.g. the exact boost that moves
+        # an endpoint / vertex / base point of every unit onto the origin
+        M = _state.get("given_M")
+        if M is None or not hyp:
+            return obj, model, "skip:no transformation given"
+        T = H.Isometry(np.array(M, copy=True), column_vectors=True)
+        new = T.apply(obj)
+        exp, _ = rp.loop_matrix_product(model.prim, np.swapaxes(M, -1, -2), model.unit, 2,
+                                        "elementwise")
+        m2 = copy.copy(model)
+        m2.prim = exp
+        return new, m2, "ok"
+    if op == "setitem-unit":
+        # a key that reaches into the unit axes: composite part (int / slice per
+        # composite axis) + a key on the vertex axis of a polygon, or on the
+        # endpoint / row axis of a segment / tangent vector (keeping both rows:
+        # the library builds type(obj)(value) first).  numpy semantics on
+        # proj_data; the derived data must be that of the new proj_data -- for a
+        # polygon also the edges next to the assigned vertices (seeded change
+        # C11-r4-2: only aux[key] recomputed, from proj_data[key] alone)
+        comp = []
+        for sz in shape:
+            r = int(rng.integers(0, 3))
+            comp.append(slice(None) if r == 0 else int(rng.integers(0, sz)) if r == 1
+                        else slice(int(rng.integers(0, sz)), None))
+        comp = tuple(comp)
+        rows = model.prim.shape[-2]
+        base = _state.get("ukey")
+        which = int(rng.integers(0, 64)) if base is None else base + step
+        if "Polygon" in kind:
+            vparts = [slice(1, 3), slice(0, 2), slice(rows - 2, rows), slice(None, None, 2),
+                      slice(rows - 1, rows), [0, rows - 1], slice(None, None, -1),
+                      int(rng.integers(0, rows)), slice(0, 1), [rows - 1, 1]]
+        else:
+            vparts = [slice(None), slice(None, None, -1), [1, 0], [0, 1]]
+        vp = vparts[which % len(vparts)]
+        key = comp + (vp,)
+        target = model.prim[key]
+        if target.ndim < model.unit or target.size == 0 or \
+                ("Polygon" not in kind and target.shape[-2] != 2):
+            return obj, model, "skip:type(obj)(value) cannot be built for this key"
+        tmp = np.array(model.prim, copy=True)
+        if "Polygon" in kind:
+            if hyp:
+                newv = G.interior(rng, n, target.shape[:-1], rmax=0.85)
+            else:
+                newv = rng.normal(size=target.shape)
+            tmp[key] = newv
+        else:
+            sub = tmp[comp].shape[:-2] if comp else shape
+            raw = draw_value(rng, kind, n, sub)
+            if comp:
+                tmp[comp] = G.primary(kind, raw)
+            else:
+                tmp[...] = G.primary(kind, raw)
+        value = np.array(tmp[key], copy=True)
+        if np.asarray(obj.proj_data).dtype != value.dtype:
+            value = value.astype(np.asarray(obj.proj_data).dtype)
+        if isinstance(_state.get("history"), dict):
+            _state["history"].setdefault("keys", []).append(repr(key))
+        with np.errstate(all="ignore"):
+            if rng.random() < 0.5:
+                value = cls(value)
+            obj[key if len(key) > 1 else key[0]] = value
+        m2 = copy.copy(model)
+        m2.prim = tmp
+        return obj, m2, "ok"
     if op == "query-normalising":
         base = _state.get("nquery")
         which = int(rng.integers(0, 60)) if base is None else base + step
@@ -988,7 +1134,8 @@ ROUTES = ["arrays", "objects", "stack-units", "class-copy"]
 
 
 def construct(rng, kind, n, shape, route, lift=None):
-    raw = rescale_raw(rng, kind, G.draw(rng, kind, n, shape), lift)
+    raw = draw_value(rng, kind, n, shape) if _state.get("special") is not None \
+        else rescale_raw(rng, kind, G.draw(rng, kind, n, shape), lift)
     prim = G.primary(kind, raw)
     cls = G.class_of(kind)
     if route == "arrays":
@@ -1194,6 +1341,62 @@ def wl_lift_scales(run, rng, idx):
         _state["history"] = None
 
 
+SP_OPS = ["index", "setitem", "class-copy", "reshape", "flatten", "stack", "combine", "deepcopy",
+          "astype64", "setitem-raw", "flatten-unit", "copy", "setitem-unit"]
+
+
+def wl_special_positions(run, rng, idx):
+    """exact special-position data (gen/c11special.py): the derived data is
+    right at construction by the reference formula -- for polygons also the
+    ideal endpoints of get_edges() -- and stays equal to the recomputation
+    through exactness-preserving operations and through the exact boost that
+    moves an endpoint / vertex / base point onto the origin (seeded change
+    C11-r4-1: a sign(b) == 0 branch of a rewritten quadratic formula)."""
+    kind = SPECIAL_KINDS[idx % 3]
+    c = (idx // 3) % SP.N_CLASSES
+    shape = [(), (3,), (2, 2)][(idx // 3 + idx // 27) % 3]
+    route = ROUTES[(idx // 2) % len(ROUTES)]
+    n = 2 + (idx // 9) % 3
+    spec = SP.boost_spec(rng, n) if c == 8 else None
+    ops = (["apply-given"] if c == 8 else []) + \
+        [SP_OPS[(idx // 3) % len(SP_OPS)], "query", SP_OPS[int(rng.integers(0, len(SP_OPS)))]]
+    if c == 8:
+        ops.append("apply")
+    _state["history"] = {"kind": kind, "dimension": n, "shape": list(shape), "route": route,
+                         "ops": ops, "special-class": c, "boost": spec}
+    _state["special"] = {"class": c, "boost": spec}
+    _state["given_M"] = SP.exact_boost(n, spec["axis"], spec["k"])[0] if spec else None
+    run.current_case = _state["history"]
+    try:
+        run_history(run, rng, kind, n, shape, route, ops, note=("special", c))
+    finally:
+        _state["special"] = None
+        _state["given_M"] = None
+        _state["history"] = None
+
+
+SU_POST = ["query", "apply", "index", "class-copy", "setitem", "stack", "flatten", "combine"]
+
+
+def wl_setitem_unit(run, rng, idx):
+    """item assignment through keys that reach into the unit axes, twice, with
+    queries and another operation around them (seeded change C11-r4-2)."""
+    kind = HKINDS[idx % len(HKINDS)]
+    shape = [(), (3,), (2, 3), (4,)][(idx // 4) % 4]
+    n = 2 + (idx // 16) % 3
+    route = ROUTES[(idx // 3) % len(ROUTES)]
+    ops = ["setitem-unit", "query", SU_POST[(idx // 4) % len(SU_POST)], "setitem-unit", "query"]
+    _state["history"] = {"kind": kind, "dimension": n, "shape": list(shape), "route": route,
+                         "ops": ops}
+    _state["ukey"] = idx // 4 + idx // 16
+    run.current_case = _state["history"]
+    try:
+        run_history(run, rng, kind, n, shape, route, ops, note=("setitem-unit",))
+    finally:
+        _state.pop("ukey", None)
+        _state["history"] = None
+
+
 def wl_integer_primary(run, rng, idx):
     """objects built from INTEGER-typed primary data: the derived data is
     fractional in general and must not be truncated to the primary data's dtype
@@ -1352,4 +1555,6 @@ WORKLOADS = [
     Workload("integer-primary", wl_integer_primary, quick=48, thorough=960),
     Workload("flatten-unit", wl_flatten_unit, quick=80, thorough=1920),
     Workload("lift-scales", wl_lift_scales, quick=72, thorough=2304),
+    Workload("special-positions", wl_special_positions, quick=54, thorough=1296),
+    Workload("setitem-unit", wl_setitem_unit, quick=64, thorough=1536),
 ]
